@@ -37,7 +37,7 @@ func runC10(r *vhlib.Run) {
 				r.Case("inflate", []string{vhlib.Hex(s.Data)}, decObs{cls: base.Cls, out: base.Out, inOff: base.In}.String())
 			}
 			for k, sk := range kinds {
-				for sc := 0; sc < 5; sc++ {
+				for sc := 0; sc < 6; sc++ {
 					if r.Quick() && (k+sc+i)%3 != 0 {
 						continue
 					}
@@ -68,6 +68,7 @@ func runC10(r *vhlib.Run) {
 			}
 		}
 	}
+	c10XFlate(r)
 	r.Sample(map[string]interface{}{"sources": []string{"bytes.Reader", "bytes.Buffer", "strings.Reader", "bufio16", "bufio4096", "bufio-over-1byte", "ByteReader", "fragBuffered", "ReadOnly", "OneBytePerRead", "DataWithEOF"}, "schedules": "1 | 4096 | 1MiB | 7 | random with 30% zero-length"})
 }
 
